@@ -60,7 +60,7 @@ func VerifSVGTruncated(n int) {
 	vReach("end")
 }
 
-var verifSVGEntUnits = []string{"&#60;", "&#38;", "&lt;", "&amp;", "&gt;", "x", " ", "&quot;", "'", "&#x3C;"}
+var verifSVGEntUnits = []string{"&#60;", "&#38;", "&lt;", "&amp;", "&gt;", "x", " ", "&quot;", "'", "&#x3C;", "]]", "&#62;"}
 
 // VerifSVGEntities (C05/C09): <svg><text a="U..">U..</text></svg> with the attribute value and the text each built from
 // up to n units (references to < and &, other references, text): the output is well-formed (a decoded < or & stays
